@@ -273,10 +273,17 @@ package exif2
 //@   ensures [C06] anchor(ir) == old(anchor(ir))
 //@   ensures [C02] pos(ir.reader) >= old(pos(ir.reader))
 
+// C03 text values: the reported text is the value without its trailing NUL / blank / newline bytes (Exif 2.32 4.6.2: ASCII
+// values are NUL-terminated; writers pad with blanks) - a prefix of the value that ends in a significant byte.
+//@ spec isTrim(c) = c == 0 || c == ' ' || c == '\n'
 //@ func trimNULBuffer
 //@   props C01 C02 C03
 //@   pure
 //@   ensures len(r0) <= len(buf)
+//@   ensures [C03] len(r0) > 0 ==> arr(r0) == arr(buf) && off(r0) == off(buf) && !isTrim(buf[len(r0)-1])
+//@   ensures [C03] forall k int :: len(r0) <= k && k < len(buf) ==> isTrim(buf[k])
+//@   loop 0 invariant -1 <= i && i < len(buf)
+//@   loop 0 invariant forall k int :: i < k && k < len(buf) ==> isTrim(buf[k])
 
 //@ func parseStrUint
 //@   props C01 C02
